@@ -23,6 +23,7 @@ func init() {
 			"R02.4 (OR) an alternative admits only with applies && err==nil && principal!=nil, a recorded rejection is never overwritten by a nil error, the anonymous alternative admits only if no rejection was recorded; " +
 			"R02.5 Context.Authorize admits only after Authenticate applied without error with a principal (or anonymous) and after the registered authorizer accepted that very principal; principal and scopes stored in the request context come from the satisfied alternative; refusals carry the scheme's error, 401, the authorizer's error or 403; " +
 			"R02.6 buildAuthenticators creates one group per requirement with every scheme and its scopes and flags anonymity only for the single empty requirement. " +
+			"R02.3 also: after a scheme was consulted the principal carried on is that scheme's own (a later nil principal is not masked by an earlier one). " +
 			"NOT decided: behaviour of user-supplied authenticators/authorizers; the content of the analyzed spec (go-openapi/analysis).",
 		Assumptions: []string{"analysis.Spec.SecurityRequirementsFor returns the operation's requirement alternatives as documented"},
 		Run:         runC02,
